@@ -260,6 +260,11 @@ class Rewriter:
         s = head + s[po:pc + 1] + '\n' + s[bo:]
         # spec-local regex rules (name, pattern, replacement) see the raw C++ text: applied before every generic rule
         for name, pat, rep in self.extra:
+            if pat == '@divisions':     # every binary '/' becomes rep(left, right)
+                s, n = rewrite_divisions(s, rep)
+                if n:
+                    self._hit(name, n)
+                continue
             s = self._sub(name, pat, rep, s)
         # R15 simple token equivalents
         s = self._sub('R15', r'\bnullptr\b', 'NULL', s)
@@ -357,6 +362,119 @@ class Rewriter:
             self._hit('R16', n)
             s = s[:po + 1] + ','.join(parts) + s[pc:]
         return s
+
+
+def _primary_back(s, j):
+    """s[j] is the last character of a postfix expression: return the index of its first character."""
+    while True:
+        while j >= 0 and s[j].isspace():
+            j -= 1
+        if j < 0:
+            raise ExtractError('division: no left operand')
+        if s[j] in ')]':
+            close, opn = s[j], '(' if s[j] == ')' else '['
+            depth = 0
+            while True:
+                if s[j] == close:
+                    depth += 1
+                elif s[j] == opn:
+                    depth -= 1
+                    if depth == 0:
+                        break
+                j -= 1
+                if j < 0:
+                    raise ExtractError('division: unbalanced left operand')
+            k = j - 1
+            while k >= 0 and s[k].isspace():
+                k -= 1
+            if k >= 0 and (s[k].isalnum() or s[k] == '_' or s[k] in ')]'):
+                # call / index / cast prefix: f(...)  a[i]  (T)(x)
+                if s[k] == ')' and close == ')':
+                    # a cast "(T)(x)": include the parenthesised type
+                    j = k
+                    continue
+                j = k
+                continue
+            return j
+        if s[j].isalnum() or s[j] == '_' or s[j] == '.':
+            while j >= 0 and (s[j].isalnum() or s[j] == '_' or s[j] == '.'):
+                j -= 1
+            if j >= 1 and s[j - 1:j + 1] == '->':
+                j -= 2
+                continue
+            return j + 1
+        raise ExtractError('division: cannot parse left operand near %r' % s[max(0, j - 20):j + 1])
+
+
+def _primary_fwd(s, j):
+    """s[j:] starts a unary expression: return the index one past its end."""
+    n = len(s)
+    while j < n and s[j].isspace():
+        j += 1
+    while j < n and s[j] in '-+!~':
+        j += 1
+        while j < n and s[j].isspace():
+            j += 1
+    if j >= n:
+        raise ExtractError('division: no right operand')
+    if s[j] == '(':
+        j = match_close(s, j) + 1
+        k = j
+        while k < n and s[k].isspace():
+            k += 1
+        # "(T)(x)" or "(T)x": a cast followed by its operand
+        if k < n and (s[k] == '(' or s[k].isalnum() or s[k] == '_') and re.fullmatch(r'\(\s*[A-Za-z_]\w*\s*\*?\s*\)', s[s.rfind('(', 0, j):j] if s.rfind('(', 0, j) >= 0 else ''):
+            return _primary_fwd(s, k)
+    elif s[j].isalnum() or s[j] == '_' or s[j] == '.':
+        while j < n and (s[j].isalnum() or s[j] == '_' or s[j] == '.'):
+            j += 1
+    else:
+        raise ExtractError('division: cannot parse right operand near %r' % s[j:j + 20])
+    while True:
+        k = j
+        while k < n and s[k].isspace():
+            k += 1
+        if k < n and s[k] in '([':
+            j = match_close(s, k) + 1
+        elif s[k:k + 2] == '->' or (k < n and s[k] == '.'):
+            j = k + (2 if s[k] == '-' else 1)
+            while j < n and (s[j].isalnum() or s[j] == '_'):
+                j += 1
+        else:
+            return j
+
+
+def rewrite_divisions(s, macro):
+    """Rewrite every binary '/' to macro(left, right) with C precedence: the left operand is the multiplicative
+    chain to the left of the operator, the right operand the unary expression after it."""
+    count = 0
+    pos = 0
+    while True:
+        m = re.compile(r'/(?![/*=])').search(s, pos)
+        if not m:
+            return s, count
+        d = m.start()
+        if d > 0 and s[d - 1] in '/*':      # end of a comment marker
+            pos = d + 1
+            continue
+        # left: multiplicative chain
+        a = _primary_back(s, d - 1)
+        while True:
+            k = a - 1
+            while k >= 0 and s[k].isspace():
+                k -= 1
+            if k >= 0 and s[k] in '*%':
+                k2 = k - 1
+                while k2 >= 0 and s[k2].isspace():
+                    k2 -= 1
+                if k2 >= 0 and (s[k2].isalnum() or s[k2] in '_)]'):
+                    a = _primary_back(s, k2)
+                    continue
+            break
+        e = _primary_fwd(s, d + 1)
+        s = s[:a] + '%s(%s, %s)' % (macro, s[a:d].strip(), s[d + 1:e].strip()) + s[e:]
+        count += 1
+        pos = a
 
 
 _BM = None
